@@ -1,5 +1,6 @@
 import GS.Ops
+import GS.OpsBf
 /-! Union of all op tables (one per model file group). -/
 namespace GS.OpsAll
-def table : List (String × (List String → Option String)) := GS.Ops.table
+def table : List (String × (List String → Option String)) := GS.Ops.table ++ GS.OpsBf.table
 end GS.OpsAll
